@@ -520,6 +520,129 @@ def chainSpec (toReq : Bytes → Option Bytes) (ups : Bytes → Bytes) (tcp : Bo
       then .exchanged (frameReq tcp packed) (spec (upsPath tcp) (c.size (upsPath tcp)) (ups (frameReq tcp packed)))
       else .errbuf
 
+/-! ## Response writers and their pools (round 5)
+
+`udpResponseWriter.WriteMsg` and `tcpResponseWriter.WriteMsg` take a buffer from the pool the writer
+was constructed with (`respPool: s.respPool`), pack the response into it, **re-slice the pooled
+slice to the packed length** (`*bufPtr = b`), write `b`, and give the buffer back to that pool only
+when the write failed (`defer func() { if err != nil { r.respPool.Put(bufPtr) } }()`);
+`serveQUICStream` always gives it back (`defer s.respPool.Put(bufPtr)`).  So a pool that a writer
+uses holds slices of arbitrary (short) lengths.  That is harmless for the writers (`PackBuffer` moves
+to a new array when the slice is too short: `resp_udp_own_bytes` holds for every array and length)
+and for the TCP receive pool (`getTCPBuffer` re-slices every buffer to the announced length), but a
+fixed-size receive pool (UDP, DoQ, upstream) must never see such a slice: `readUDPMsg` reads into
+`*bufPtr` as it comes out of the pool.  The model below has all pools of a server side by side and
+the *wiring* (which pool a path's writer is constructed with) as a parameter; the production wiring
+is `realWiring`.  A pooled buffer is the slice visible through `*bufPtr`.  A response that cannot
+be packed (`PackBuffer` error: the buffer goes back as it was) is not modelled: `msg` is the packed
+response.  In the code a write happens while the request's receive buffer is still held; here the
+receive (`Get`, read, `Put`) and the write (`Get`, pack, write, `Put`) are consecutive events, which
+is the same thing whenever writer and receive path use different pools. -/
+
+inductive PoolId
+  | recv (p : Path)   -- `udpPool`, `tcpPool`, `reqPool` (DoQ), the upstream buffer pools
+  | respDNS           -- `ServerDNS.respPool`
+  | respDoQ           -- `ServerQUIC.respPool`
+deriving DecidableEq, Repr
+
+/-- `dns.MinMsgSize`: the size of a new `ServerDNS.respPool` buffer. -/
+def minMsgSize : Nat := 512
+
+/-- Length of a buffer made by the pool's `New`. -/
+def Cfg.poolSize (c : Cfg) : PoolId → Nat
+  | .recv p => c.size p
+  | .respDNS => minMsgSize
+  | .respDoQ => c.doq
+
+/-- All pools of a server: the receive pools of `Server` and the response pools. -/
+structure ServerW where
+  cfg : Cfg
+  free : PoolId → List Bytes
+
+def ServerW.init (c : Cfg) : ServerW := { cfg := c, free := fun _ => [] }
+
+/-- The receive pools alone. -/
+def ServerW.recvView (s : ServerW) : Server := { cfg := s.cfg, free := fun p => s.free (.recv p) }
+
+/-- Replace the receive pools. -/
+def ServerW.withRecv (s : ServerW) (r : Server) : ServerW :=
+  { s with free := fun q => match q with
+      | .recv p => r.free p
+      | .respDNS => s.free .respDNS
+      | .respDoQ => s.free .respDoQ }
+
+/-- The pool a path's response writer is constructed with (`none`: no pooled writer — DoH packs
+into a new slice, the upstream paths write requests, see `packReq`). -/
+abbrev Wiring := Path → Option PoolId
+
+/-- `serveUDPPacket`: `respPool: s.respPool`; `serveTCPMessage`: `respPool: s.respPool`;
+`serveQUICStream`: `s.respPool.Get()`. -/
+def realWiring : Wiring
+  | .udp => some .respDNS
+  | .tcp => some .respDNS
+  | .doq => some .respDoQ
+  | _ => none
+
+/-- One response write: the transport, the buffer `sync.Pool.Get` hands out, the packed response
+and whether the transport's write fails (EPERM, connection closed, deadline passed). -/
+structure Write where
+  path : Path
+  pick : Option Nat
+  msg : Bytes
+  fail : Bool
+
+/-- The slice `b` that is written and stored back into `*bufPtr`. -/
+def writerSlice (p : Path) (buf msg : Bytes) : Bytes :=
+  match p with
+  | .udp => (packUDP buf buf.length msg).1
+  | _ => (packWithPrefix buf buf.length msg).1
+
+/-- UDP, TCP/DoT: `Put` only when the write failed; DoQ: always. -/
+def writerPuts (p : Path) (fail : Bool) : Bool :=
+  match p with
+  | .doq => true
+  | _ => fail
+
+/-- `WriteMsg`: `Get`, pack, `*bufPtr = b`, write `b`, `Put` (on error).  Second component: the
+bytes handed to the transport. -/
+def writeW (w : Wiring) (s : ServerW) (x : Write) : ServerW × Bytes :=
+  match w x.path with
+  | none => (s, x.msg)
+  | some pool =>
+    let tb := takeBuf (s.cfg.poolSize pool) (s.free pool) x.pick
+    let b := writerSlice x.path tb.1 x.msg
+    ({ s with free := fun q =>
+        if q = pool then (if writerPuts x.path x.fail then tb.2 ++ [b] else tb.2) else s.free q }, b)
+
+/-- A message received by a server that also has writers: `step` on the receive pools. -/
+def recvW (s : ServerW) (op : Op) : ServerW × Outcome :=
+  (s.withRecv (step s.recvView op).1, (step s.recvView op).2)
+
+inductive EvW
+  | recv (op : Op)
+  | write (x : Write)
+
+def stepW (w : Wiring) (s : ServerW) : EvW → ServerW
+  | .recv op => (recvW s op).1
+  | .write x => (writeW w s x).1
+
+def runW (w : Wiring) (s : ServerW) : List EvW → ServerW
+  | [] => s
+  | e :: rest => runW w (stepW w s e) rest
+
+/-- A wiring under which no fixed-size receive pool is shared with a writer. -/
+def SafeWiring (w : Wiring) : Prop := ∀ p q, w p = some (.recv q) → q = .tcp
+
+/-- The seeded defect class: the UDP writer constructed with the UDP receive pool. -/
+def udpWriterOnUdpPool : Wiring
+  | .udp => some (.recv .udp)
+  | p => realWiring p
+
+/-- The TCP/DoT writer constructed with the UDP receive pool. -/
+def tcpWriterOnUdpPool : Wiring
+  | .tcp => some (.recv .udp)
+  | p => realWiring p
+
 /-! ## A tiny DNS reader, used only to exhibit witnesses -/
 
 /-- QDCOUNT of a message. -/
